@@ -186,6 +186,7 @@ namespace pika::detail {
             std::lock_guard<stop_state> l(*this);
             if (cb->remove_this_callback()) { return; }
         }
+        PIKA_VERIF_POINT(72, cb);
 
         // Callback has either already executed or is executing concurrently
         // on another thread.
@@ -260,7 +261,9 @@ namespace pika::detail {
             bool is_removed = false;
             cb->is_removed_ = &is_removed;
 
+            PIKA_VERIF_POINT(70, cb);
             cb->execute();
+            PIKA_VERIF_POINT(71, cb);
 
             if (!is_removed)
             {
